@@ -451,6 +451,8 @@ def arr_attr(ex, obj, c: HArr, name):
         return VInt(t)
     if name == "T" and len(c.shape) == 2:
         return new_array(ex, (c.shape[1], c.shape[0]), c.dtype, lambda ix: c.elem((ix[1], ix[0])))
+    if name == "flags":
+        return VOpaque("ignore", None, {"label": "ndarray.flags"})
     return VLib("ndarray." + name, obj)
 
 
@@ -936,7 +938,7 @@ def _normal(ex, args, kwargs, fr):
     loc = kwargs.get("loc", args[0] if args else VFloat(0.0))
     scale = kwargs.get("scale", args[1] if len(args) > 1 else VFloat(1.0))
     size = kwargs.get("size", args[2] if len(args) > 2 else None)
-    ex.st.ghost["RNG_draws"] = ex.st.ghost.get("RNG_draws", 0) + 1
+    rng_draw(ex)
     did = ex.st.fresh_int("draw")
     if size is None or isinstance(size, VNone):
         raise Unsupported("scalar normal draw")
@@ -967,3 +969,74 @@ def _intersect1d(ex, args, kwargs, fr):
     out = new_array(ex, (n,), VDtype("int64"), lambda ix, lo=lo: VInt(lo + z_int(ix[0])))
     ex.st.cell(out).tag = ("range", lo, z3.simplify(lo + n))
     return out
+
+
+@npfn("numpy.diff")
+def _diff(ex, args, kwargs, fr):
+    c = cell(ex, args[0])
+    if len(c.shape) != 1:
+        raise Unsupported("np.diff of a non 1-D array")
+    n = z_int(c.shape[0])
+    return new_array(ex, (z3.simplify(z3.If(n > 0, n - 1, 0)),), c.dtype,
+                     lambda ix: arith(ex.cfg, ast.Sub(), c.elem((z_int(ix[0]) + 1,)), c.elem((z_int(ix[0]),))))
+
+
+@npfn("numpy.concatenate")
+def _concatenate(ex, args, kwargs, fr):
+    parts = ex.iterate(args[0], fr)
+    cs = [cell(ex, p) for p in parts]
+    if any(len(c.shape) != 1 for c in cs):
+        raise Unsupported("np.concatenate of non 1-D arrays")
+    offs, total = [], z3.IntVal(0)
+    for c in cs:
+        offs.append(total)
+        total = total + z_int(c.shape[0])
+
+    def elem(ix):
+        i = z_int(ix[0])
+        out = cs[-1].elem((i - offs[-1],))
+        for c, o in list(zip(cs, offs))[-2::-1]:
+            out = ite_val(i < o + z_int(c.shape[0]), c.elem((i - o,)), out)
+        return out
+    return new_array(ex, (z3.simplify(total),), result_dtype(ex, parts[0], parts[-1]), elem)
+
+
+# ---- legacy global random generator: ghost state RNG -------------------------------------------------------
+rng_seeded = z3.Function("rng_seeded", z3.IntSort(), z3.IntSort())
+rng_advance = z3.Function("rng_advance", z3.IntSort(), z3.IntSort())
+
+
+def rng_get(ex):
+    if "RNG" not in ex.st.ghost:
+        ex.st.ghost["RNG"] = z3.Int("RNG0")
+    return ex.st.ghost["RNG"]
+
+
+@npfn("numpy.random.get_state")
+def _rng_get_state(ex, args, kwargs, fr):
+    return VOpaque("rngstate", rng_get(ex), {})
+
+
+@npfn("numpy.random.set_state")
+def _rng_set_state(ex, args, kwargs, fr):
+    if not (isinstance(args[0], VOpaque) and args[0].kind == "rngstate"):
+        raise Unsupported("np.random.set_state of an unknown state object")
+    ex.st.ghost["RNG"] = args[0].t
+    ex.st.events.append(("rng_set_state", args[0].t))
+    return NONE
+
+
+@npfn("numpy.random.seed")
+def _rng_seed(ex, args, kwargs, fr):
+    s = args[0] if args else kwargs.get("seed", NONE)
+    if isinstance(s, VNone):
+        ex.st.ghost["RNG"] = ex.st.fresh_int("rng_entropy")
+    else:
+        ex.st.ghost["RNG"] = rng_seeded(z_int(int_of(s)))
+    ex.st.events.append(("rng_seed", s))
+    return NONE
+
+
+def rng_draw(ex):
+    ex.st.ghost["RNG"] = rng_advance(rng_get(ex))
+    ex.st.events.append(("rng_draw",))
